@@ -221,3 +221,21 @@ Definition exp_iterm2 (cfg : config) (p : profile) : bool :=
   (name_is name "konsole" && version_ge version [22; 4; 0]).
 Definition exp_auto (cfg : config) (p : profile) : style :=
   if exp_kitty cfg p then Kitty else if exp_iterm2 cfg p then Iterm2 else Block.
+
+(** ** one cache epoch: every call of the colour getter reports the profile's colours in the
+    representation that THIS call asked for ("#rrggbb" when hex=True, an RGB triple
+    otherwise), whatever was asked before; every call of the name/version getter reports the
+    profile's identity.  Independent of the model's memo. *)
+Definition lc_hex_digit (d : Z) : byte := nth (Z.to_nat d) (bs "0123456789abcdef") 63.
+(** two hexadecimal digits of a value in 0..255, most significant first *)
+Definition two_hex (v : Z) : list byte := [lc_hex_digit (v / 16); lc_hex_digit (v - 16 * (v / 16))].
+Definition hash_rgb (c : rgb) : list byte :=
+  let '(r, g, b) := c in bs "#" ++ two_hex r ++ two_hex g ++ two_hex b.
+Definition exp_colours (cfg : config) (p : profile) (hex : bool) : colour_value :=
+  let (fg, bg) := exp_fg_bg cfg p in
+  if hex then VHex (option_map hash_rgb fg, option_map hash_rgb bg) else VRgb (fg, bg).
+Definition exp_call (cfg : config) (p : profile) (call : scall) : sres :=
+  match call with
+  | SFg f => RFg (Some (exp_colours cfg p (match f with FDefault => false | FHex h => h end)))
+  | SNv => let (n, v) := exp_name_version cfg p in RNv n v
+  end.
